@@ -656,6 +656,8 @@ class Engine:
         if isinstance(op, ast.Is):
             if isinstance(b, V) and b.ty == NONE:
                 return T.is_none(a) if isinstance(a, V) else z3.BoolVal(False)
+            if isinstance(a, V) and a.ty == NONE:
+                return T.is_none(b) if isinstance(b, V) else z3.BoolVal(False)
             if isinstance(a, V) and isinstance(b, V) and a.ty == BOOL and b.ty == BOOL:
                 return a.t == b.t
             if isinstance(a, V) and isinstance(b, V) and a.ty[0] in ('ref', 'opt') and b.ty[0] in ('ref', 'opt'):
@@ -711,7 +713,7 @@ class Engine:
             if container.ty[1] == ANY:
                 return z3.BoolVal(False)
             it = T.coerce(item, container.ty[1])
-            return z3.Contains(T.dict_keys(container), z3.Unit(it.t))
+            return self.B.dict_member(self, container, it.t)
         if k == 'set':
             it = T.coerce(item, container.ty[1])
             return z3.Select(container.t, it.t)
@@ -871,6 +873,11 @@ class Engine:
             kwargs[kw.arg] = self.eval(kw.value, fr)
         return self.call(fobj, args, kwargs, fr, node)
 
+    def trace_event(self, kind, ref, label, args=()):
+        if self.st.trace is None:
+            self.st.trace = []
+        self.st.trace.append((kind, ref, label, tuple(args)))
+
     def special_old_pre(self, node, fr):
         arg = node.args[0]
         if node.func.id == 'old':
@@ -981,6 +988,9 @@ class Engine:
         if not isinstance(fobj, PyObj):
             if isinstance(fobj, V) and fobj.ty[0] == 'fn':
                 return self.B.call_fn_value(self, fobj, args, kwargs, fr, node)
+            if isinstance(fobj, V) and fobj.ty[0] == 'ref':
+                from . import heapglue
+                return heapglue.call_ext_method(self, fobj, '__call__', args, kwargs, fr, node)
             raise Unsupported('call of a %s value' % (fobj.ty,))
         k = fobj.kind
         if k == 'builtin':
@@ -997,6 +1007,15 @@ class Engine:
             return self.call_repo_func(fobj, args, kwargs, fr, node)
         if k == 'lambda':
             return self.call_lambda(fobj, args, kwargs)
+        if k == 'extmethod':
+            from . import heapglue
+            ref, attr = fobj.payload
+            return heapglue.call_ext_method(self, ref, attr, args, kwargs, fr, node)
+        if k == 'partial':
+            f, pa, pk = fobj.payload
+            kw = dict(pk)
+            kw.update(kwargs)
+            return self.call(f, list(pa) + list(args), kw, fr, node)
         if k == 'extern':
             h = self.B.EXTERN.get(fobj.payload)
             if h is not None:
@@ -1058,6 +1077,8 @@ class Engine:
             args = [fobj.extra] + list(args)
         if c is None:
             raise Unsupported('call of %s which has no contract' % qn)
+        if c.extra.get('method') and not (c.inline or c.extra.get('inline_at_calls')):
+            return self.B.apply_method_contract(self, fi, c, args, kwargs, node)
         if c.inline or c.extra.get('inline_at_calls'):
             return self.inline_call(fi, c, fobj, args, kwargs)
         return self.apply_contract(fi, c, args, kwargs, node,
@@ -1170,6 +1191,7 @@ class Engine:
             self.exec_stmt(s, fr)
 
     def exec_stmt(self, s, fr):
+        self.cur_frame = fr
         m = getattr(self, 's_' + type(s).__name__, None)
         if m is None:
             raise Unsupported('statement %s' % type(s).__name__)
